@@ -36,6 +36,10 @@ SCRIPTS = {
                         R.Action('set', [L('M', matrix=('block', [R.Stage((N(value=1), None), (N(value=0), N(value=1)))]))]),
                         R.Action('on', [L('M')]), R.Action('set', [L('B')])], 'M'),
     'broadcast-then-faulty-light': (pre() + [R.Action('set', 'all'), R.Action('set', [L('A')]), R.Action('on', 'all'), R.Action('off', [L('B')])], 'A'),
+    'power-on-special': (pre() + [R.Action('on', [L('Z')]), R.Action('off', [L('M')]), R.Action('set', [L('A')]), R.Action('on', [R.Operand('group', R.Str('G2'))]),
+                                  R.Action('set', [L('B'), L('Z', zone=(N(value=0), None)), L('C')])], 'Z'),
+    'group-loop': (pre() + [R.Repeat('in', [R.Action('set', [R.Operand('light', R.Var('lt'))]), R.Action('on', [R.Operand('light', R.Var('lt'))])], lvar='lt',
+                                     items=[('group', R.Str('G1')), ('light', R.Str('C'))]), R.Action('off', [L('B')])], 'A'),
     'loop': (pre() + [R.Repeat('all', [R.Action('set', [R.Operand('light', R.Var('lt'))])], lvar='lt'), R.Action('on', [L('C')])], 'B'),
 }
 MISMATCH = [
@@ -55,13 +59,14 @@ MISMATCH = [
 
 
 def others_trace(trace, faulty):
+    faulty = faulty if isinstance(faulty, (tuple, list, set)) else (faulty,)
     out = []
     for e in trace:
         if e[0] in ('color', 'power', 'zone', 'tile', 'get_color'):
-            if e[1] != faulty:
+            if e[1] not in faulty:
                 out.append(e)
         elif e[0] in ('all_color', 'all_power'):
-            if faulty != '<lan>':
+            if '<lan>' not in faulty:
                 out.append(e)
         else:
             out.append(e)
@@ -71,7 +76,9 @@ def others_trace(trace, faulty):
 def fault_worker(args):
     name = args['name']
     stmts, faulty = SCRIPTS[name]
-    case = scripth.Case(stmts, specs=SPECS, tag='fault-%s' % name)
+    faulty = args.get('faulty', faulty)
+    fset = faulty if isinstance(faulty, tuple) else (faulty,)
+    case = scripth.Case(stmts, specs=SPECS, tag='fault-%s-%s' % (name, '+'.join(fset)))
     res = report.WorkResult(case.tag)
     world.start_function_trace()
     res.sites.add('containment')
@@ -88,7 +95,7 @@ def fault_worker(args):
                 if streak.get('last') != key:
                     streak.clear()
                 streak['last'] = key
-                if plan is None or label != faulty:
+                if plan is None or label not in fset:
                     return False
                 k = streak.get(key, 0)
                 fail = plan(label, op, k)
@@ -207,7 +214,7 @@ def replay_fault(case, prog, slots, cv, faulty, log):
                 if streak.get('last') != key:
                     streak.clear()
                 streak['last'] = key
-                if label != faulty:
+                if label not in (faulty if isinstance(faulty, tuple) else (faulty,)):
                     return False
                 k = streak.get(key, 0)
                 f = next(it, False) if k < 4 else False
@@ -393,6 +400,14 @@ def run(tier, seed):
     t0 = time.time()
     q = tier == 'quick'
     items = [{'kind': 'fault', 'name': n, 'max_paths': 1500 if q else 20000, 'budget_s': 40 if q else 500} for n in SCRIPTS]
+    if not q:
+        # every other single faulty device per script, and pairs of faulty devices
+        for n in SCRIPTS:
+            for f in ('A', 'B', 'C', 'Z', 'M'):
+                if f != SCRIPTS[n][1]:
+                    items.append({'kind': 'fault', 'name': n, 'faulty': f, 'max_paths': 20000, 'budget_s': 300})
+            for pair in (('A', 'B'), ('A', 'Z'), ('B', 'M'), ('Z', 'M')):
+                items.append({'kind': 'fault', 'name': n, 'faulty': pair, 'max_paths': 30000, 'budget_s': 400})
     items += [{'kind': 'mismatch', 'mismatch': m} for m in MISMATCH]
     items += [{'kind': 'discovery', 'faulty': f, 'budget_s': 40 if q else 400} for f in ('A', 'Z', 'M', '<lan>')]
     results, skipped = report.run_pool(dispatch, items, budget_s=common.tier_budget(tier, 70, 900))
